@@ -58,6 +58,10 @@ def cases(tier):
             if len(sel) >= 2 and pr == "double":
                 # the same request on a column with OTHER node heights (same domain, shape and level indices), in the same sweep
                 yield {"nn": nn, "levels": sel, "footprint": fp, "analytic": an, "prec": pr, "zscale": 1.37}
+            if an and (len(sel) == 3 or nn == 17):
+                # cells much finer than the column is deep (0.5 m cells, nodes up to 10 m: the shortest waves decay by exp(-60)
+                # between the lowest and the highest node) - analytic mode only, the shooting method has no digits left there
+                yield {"nn": nn, "levels": sel, "footprint": fp, "analytic": an, "prec": pr, "cell": 0.5}
 
 
 def case_levels(case):
@@ -68,10 +72,12 @@ def case_levels(case):
     z, prof = column(nn, "const" if an else "var")
     z = z * case.get("zscale", 1.0)
     nx, ny, dom = 6, 4, (60.0, 60.0)
+    if "cell" in case:
+        dom = (nx * case["cell"], ny * 1.5 * case["cell"])
     sl.pollute(nx, ny, 10.0, 15.0)
     rng = core.case_rng(seed, "c10-source")
     q = rng.random((ny, nx))
-    kw = dict(modes=(6, 4), halo=0.0, precision=pr, footprint=fp, analytic=an, meas_pt=(20.0, 15.0), srf_bg_conc=1.5)
+    kw = dict(modes=(6, 4), halo=0.0, precision=pr, footprint=fp, analytic=an, meas_pt=(2 * dom[0] / nx, dom[1] / ny), srf_bg_conc=1.5)
     tol = 1e-12 if pr == "double" else 1e-6
     cnt = [0]
 
